@@ -51,6 +51,16 @@ def worker(pid, jobname, tier, seed, known):
         h = load_harness(pid)
         job = [j for j in h.jobs(tier) if j.name == jobname][0]
         fn = getattr(h, job.fn)
+        # watchdog: a driver loop that never ends (possible on a changed tree) must not hang the check
+        import signal
+
+        def _alarm(signum, frame):
+            raise TimeoutError('job watchdog: no progress within the time limit')
+        try:
+            signal.signal(signal.SIGALRM, _alarm)
+            signal.alarm(int(job.opts.get('max_seconds', 3600) * 1.5) + 120)
+        except (ValueError, OSError):
+            pass
         V = api.SymV(job.name, job.opts)
         params = dict(job.params)
 
